@@ -676,6 +676,15 @@ class Interpreter(BaseInterpreter[TContext, TEvent]):
             return
 
         for action_def in actions:
+            # 🛑 `stop()` landed in the middle of this macrostep (an action of
+            #    this very list called it, or another task did while a
+            #    coroutine action was suspended and `stop()` is still awaiting
+            #    its clean-up): a stopped interpreter starts no further action.
+            #    This is what the cancellation of the run loop already does
+            #    when it reaches the macrostep at an `await`.
+            if self.status == "stopped":
+                return
+
             # 🔔 Notify plugins before executing each action.
             for plugin in self._plugins:
                 plugin.on_action_execute(self, action_def)
